@@ -35,10 +35,21 @@ struct Gen
     void set_init(int64_t h, int64_t N, int bad = BAD_NONE) { op(OP_SET_INIT, {h, N, rnd(1u << 30), rnd(2), bad, rnd(64), rnd(8)}); }
     void configure(int64_t h, bool maps, int mask = -1)
     {
-        if (maps && r.chance(0.5)) op(OP_SET_TMAP, {h, rnd(3)});
-        if (maps && r.chance(0.6)) op(OP_SET_SMAP, {h, rnd(3)});
+        int64_t fm = mask >= 0 ? mask : (r.chance(0.15) ? 0 : (r.chance(0.15) ? 255 : rnd(256)));
+        bool flags_first = r.chance(0.3), maps_last = r.chance(0.25);
+        if (flags_first) op(OP_SET_FLAGS, {h, fm});
+        if (!maps_last)
+        {
+            if (maps && r.chance(0.5)) op(OP_SET_TMAP, {h, rnd(3)});
+            if (maps && r.chance(0.6)) op(OP_SET_SMAP, {h, rnd(3)});
+        }
         set_init(h, pick_N());
-        op(OP_SET_FLAGS, {h, mask >= 0 ? mask : (r.chance(0.15) ? 0 : (r.chance(0.15) ? 255 : rnd(256)))});
+        if (maps_last)
+        {
+            if (maps && r.chance(0.5)) op(OP_SET_TMAP, {h, rnd(3)});
+            if (maps && r.chance(0.6)) op(OP_SET_SMAP, {h, rnd(3)});
+        }
+        if (!flags_first) op(OP_SET_FLAGS, {h, fm});
         if (r.chance(0.7)) op(OP_SET_RHO, {h, rnd(5)});
         op(OP_SET_K, {h, r.chance(0.3) ? r.range(1, 3) : (r.chance(0.5) ? r.range(4, 16) : r.range(17, 64))});
     }
@@ -46,7 +57,7 @@ struct Gen
     void eval(int64_t h, int checks, int ws_sel = -1, int xmode = 0, int exmode = -1)
     {
         int64_t a0 = rnd(1u << 30), a1 = ws_sel >= 0 ? ws_sel : rnd(5), a2 = exmode >= 0 ? exmode : rnd(6), a3 = rnd(1u << 30), a4 = rnd(3), a5 = r.chance(0.75) ? 1 : 0;
-        int64_t af = r.chance(abort_rate) ? 1 + rnd(3) : 0, ac = rnd(1u << 20);
+        int64_t af = r.chance(abort_rate) ? 1 + rnd(4) : 0, ac = rnd(1u << 20);
         op(OP_EVAL, {h, a0, xmode, a1, a2, a3, a4, a5, checks, af, ac});
     }
 };
